@@ -34,8 +34,8 @@ TEXT = {
   "the edit algebra is verified on the real bodies: MutationsInner::{replace,remove}, DynamicString::{push_front,push_back,clear,encode}, the impl_serialize! expansion for Comment/StartTag/EndTag (output == before ++ (self | replacement) ++ after), serialize_self of the three token kinds, every Element content mutator (after/prepend/append/set_inner_content/replace/remove/remove_and_keep_content incl. the void-element no-ops) against an abstract (start-tag edit, end-tag edit) view, and the dispatcher's emission toggling Bounded: every edit script of <= 3 insertions + optional replace/remove/remove_and_keep_content/set_inner_content + optional end-tag-handler edit against a model written from the API documentation.",
   "Element struct reduced to the fields the mutators touch; Mutations::mutate/if_mutated assumed (A-mutate); attribute list serialisation and text chunks abstract; streaming handlers environment; attribute edits (set/remove with duplicates) only through the bounded attribute mode of U-PARSE-B; Element::into_end_tag_handler (closure composition) not under contract"),
  "C08": ("proof",
-  "attribute values: escape_double_quotes_only is proved, for every byte string, to emit exactly the input with each `\"` replaced by `&quot;` (Verus, real loop with an inductive invariant), <&Attribute as Serialize>::into_bytes emits name=\"<escaped value>\" and the part between the quotes is proved quote-free, so a value can never close the attribute it is written into; text escaping (escape_body_text) and the validators of names / comment text are bounded only (Kani harnesses on short strings, re-parse check of the real crate in U-PARSE-B) Attribute-name validation checked against its specification for all ASCII names of length <= 3 (Kani, bounded).",
-  "A-split (std split_at_checked/get(1..) glue replaced by an assumed helper), A-memchr; escape_body_text, set_tag_name/set_attribute name validation, Comment::set_text and encoding of inserted content are NOT under a deductive contract (bounded stand-ins only); encoding_rs trusted"),
+  "attribute values: escape_double_quotes_only is proved, for every byte string, to emit exactly the input with each `\"` replaced by `&quot;` (Verus, real loop with an inductive invariant), <&Attribute as Serialize>::into_bytes emits name=\"<escaped value>\" and the part between the quotes is proved quote-free, so a value can never close the attribute it is written into; text content: escape_body_text is proved, for every string, to emit exactly the input with `<`, `>`, `&` replaced by `&lt;`, `&gt;`, `&amp;` - the string literals enter the proof with their own bytes (rule R13) - hence no `<` or `>` reaches the output (Verus U-ESCT, real loop); the validators of names / comment text are bounded only (Kani harnesses on short strings, re-parse check of the real crate in U-PARSE-B) Attribute-name validation checked against its specification for all ASCII names of length <= 3 (Kani, bounded).",
+  "A-split (std split_at_checked/get(1..) glue replaced by an assumed helper), A-memchr; A-utf8-boundary (positions around an ASCII byte are char boundaries; split_at_checked succeeds exactly there); set_tag_name/set_attribute name validation, Comment::set_text and encoding of inserted content are NOT under a deductive contract (bounded stand-ins only); encoding_rs trusted"),
  "C09": ("proof",
   "consumed == f(registers) (get_consumed_byte_count, break_on_end_of_input), emit actions move lexeme_start to the lexeme end, tag_start is held exactly in the states between '<' and the end of the tag name (st_hold, all 74 state functions), finish_tag_name releases it on every path, and an end of input in a text state holds nothing back (uniform postcondition); write() keeps exactly chunk[consumed..]. Schedule independence is relational and only bounded.",
   "A-parse-loop; look-ahead length bound not stated as a contract"),
